@@ -76,6 +76,21 @@ func (e *lenEval) evalInt(x ast.Expr) (int64, bool) {
 	if e.isLenOfSubject(x) {
 		return int64(e.n), true
 	}
+	if b, ok := x.(*ast.BinaryExpr); ok && (b.Op == token.ADD || b.Op == token.SUB || b.Op == token.MUL) {
+		l, lok := e.evalInt(b.X)
+		r, rok := e.evalInt(b.Y)
+		if lok && rok {
+			switch b.Op {
+			case token.ADD:
+				return l + r, true
+			case token.SUB:
+				return l - r, true
+			default:
+				return l * r, true
+			}
+		}
+		return 0, false
+	}
 	if o := astx.IdentObj(e.info(), x); o != nil && e.depth < 4 {
 		if init := e.singleInit(o); init != nil {
 			e.depth++
